@@ -456,7 +456,11 @@ impl Worker {
                     crate::verif::probe(crate::verif::Point::WorkerDequeued);
                     #[cfg(varlink_rust_verif)]
                     crate::verif::probe(crate::verif::Point::WorkerBusyInc);
-                    job.call_box();
+                    // a panicking job must not take the worker (and its busy count) with it:
+                    // the pool would keep counting a connection that no longer exists
+                    let _ = std::panic::catch_unwind(std::panic::AssertUnwindSafe(move || {
+                        job.call_box()
+                    }));
                     #[cfg(varlink_rust_verif)]
                     crate::verif::probe(crate::verif::Point::WorkerJobDone);
                     {
